@@ -19,6 +19,7 @@
 (*                      validation that follows finds both complete)        *)
 (*   Reopen             NewStore over the same directory: caches empty      *)
 (*   RemoveQ4           cache.Remove(height) + unlink Q4                    *)
+(*   RemoveODSQ4        (Extended) cache.Remove + unlink link, ODS, Q4      *)
 (*   EvictRecent, EvictServing   LRU eviction by another height             *)
 (*   HoldStore, HoldCached       OpenViaStore / OpenViaCachedStore, the     *)
 (*                      accessor is kept open across later actions          *)
@@ -38,7 +39,9 @@
 (***************************************************************************)
 EXTENDS SRAccessor, Json
 
-CONSTANTS MaxObj         \* bound on simultaneously live accessor objects
+CONSTANTS MaxObj,        \* bound on simultaneously live accessor objects
+          Extended       \* TRUE: also RemoveODSQ4 (the block leaves the store; a held accessor keeps reading the
+                         \* unlinked files) and Reopen while an accessor of the previous Store instance is still held
 
 VARIABLES W,             \* the world: the square that is (to be) stored and its roots
           st,            \* the store: configuration, files, caches, accessor objects, held handle
@@ -101,8 +104,9 @@ ByHashVia(S) == IF IsEmptyBlock THEN "emptymem" ELSE IF S.odsF.present THEN "fil
 
 ---------------------------------------------------------------------------
 (* Macro reads: fold WRead over a generating set.  After "all" the object is in the same state as  *)
-(* after every read of AllArgs in any order (row entries: half+extended+proofs, column entries:    *)
-(* half, Q4 attempted, ODS in memory).                                                              *)
+(* after every read of AllArgs in any order (row entries: half+extended+proofs; column entries:    *)
+(* half; the Q4 look-up made; the ODS pulled into memory iff a lower/right axis had to be           *)
+(* recomputed because there was no Q4 file).  SRObject!WarmIsCanon checks exactly this.            *)
 RECURSIVE Fold(_, _, _)
 Fold(w, dq4, reads) ==
   IF reads = <<>> THEN w ELSE Fold(WRead(W, w, dq4, Head(reads)[1], Head(reads)[2]).w, dq4, Tail(reads))
@@ -139,17 +143,22 @@ DoPutODS(S) ==
   ELSE LET S1 == CacheInsert(S) IN IF S1.odsF.present THEN S1 ELSE WriteOds(S1)
 
 DoRemoveQ4(S) == IF IsEmptyBlock THEN S ELSE [DropCaches(S) EXCEPT !.q4F = NoQ4File]
+(* removeODSQ4: removeODS (cache, height link, ODS file - for the empty block only the link) then removeQ4 *)
+DoRemoveODSQ4(S) ==
+  IF IsEmptyBlock THEN [DropCaches(S) EXCEPT !.link = FALSE]
+  ELSE [DropCaches(S) EXCEPT !.link = FALSE, !.odsF = NoOdsFile, !.q4F = NoQ4File]
 
 ---------------------------------------------------------------------------
 (* The actions as (enabled, effect) on the state record *)
-Labels == {"PutODSQ4", "PutODS", "Reopen", "RemoveQ4", "EvictRecent", "EvictServing", "HoldStore", "HoldCached",
+Labels == {"PutODSQ4", "PutODS", "Reopen", "RemoveQ4", "RemoveODSQ4", "EvictRecent", "EvictServing", "HoldStore", "HoldCached",
            "ReadUpperHeld", "ReadAllHeld", "CloseHeld", "GetterReadAll", "CachedReadUpper", "CachedReadAll"}
 
 Enabled(a, S) ==
   CASE a = "PutODSQ4" -> HasFree(S)
     [] a = "PutODS"   -> HasFree(S)
-    [] a = "Reopen"   -> ~S.held.open
+    [] a = "Reopen"   -> ~S.held.open \/ Extended
     [] a = "RemoveQ4" -> S.link /\ ~BlocksOnHeld(S)
+    [] a = "RemoveODSQ4" -> Extended /\ S.link /\ ~BlocksOnHeld(S)
     [] a = "EvictRecent"  -> S.cfgR /\ S.recent # 0
     [] a = "EvictServing" -> S.cfgS /\ S.serving # 0
     [] a = "HoldStore"    -> ~S.held.open /\ HasFree(S) /\ OpenStore(S).found
@@ -163,6 +172,7 @@ Apply(a, S) ==
     [] a = "PutODS"   -> DoPutODS(S)
     [] a = "Reopen"   -> DropCaches(S)
     [] a = "RemoveQ4" -> DoRemoveQ4(S)
+    [] a = "RemoveODSQ4" -> DoRemoveODSQ4(S)
     [] a = "EvictRecent"  -> Gc([S EXCEPT !.recent = 0])
     [] a = "EvictServing" -> Gc([S EXCEPT !.serving = 0])
     [] a = "HoldStore"    -> LET r == OpenStore(S) IN [r.S EXCEPT !.held = [open |-> TRUE, id |-> r.id, kind |-> r.kind]]
@@ -182,13 +192,14 @@ Step(a) == /\ Enabled(a, st)
 
 PutODSQ4 == Step("PutODSQ4")          PutODS == Step("PutODS")
 Reopen == Step("Reopen")              RemoveQ4 == Step("RemoveQ4")
+RemoveODSQ4 == Step("RemoveODSQ4")
 EvictRecent == Step("EvictRecent")    EvictServing == Step("EvictServing")
 HoldStore == Step("HoldStore")        HoldCached == Step("HoldCached")
 ReadUpperHeld == Step("ReadUpperHeld")  ReadAllHeld == Step("ReadAllHeld")
 CloseHeld == Step("CloseHeld")        GetterReadAll == Step("GetterReadAll")
 CachedReadUpper == Step("CachedReadUpper")  CachedReadAll == Step("CachedReadAll")
 
-Next == \/ PutODSQ4 \/ PutODS \/ Reopen \/ RemoveQ4 \/ EvictRecent \/ EvictServing \/ HoldStore \/ HoldCached
+Next == \/ PutODSQ4 \/ PutODS \/ Reopen \/ RemoveQ4 \/ RemoveODSQ4 \/ EvictRecent \/ EvictServing \/ HoldStore \/ HoldCached
         \/ ReadUpperHeld \/ ReadAllHeld \/ CloseHeld \/ GetterReadAll \/ CachedReadUpper \/ CachedReadAll
 
 ---------------------------------------------------------------------------
